@@ -51,8 +51,21 @@ def register_c08(reg):
                      assumed='tinycss2.serialize(decl.value).strip() of a parsed declaration is a str and does not raise (tinycss2 trusted)'))
     reg.add(Contract(f'{CLI}:serialize_prelude', params={'prelude': 'unk'}, result='str', posts={}, pure=False, raises=(),
                      assumed='tinycss2.serialize(prelude).strip() of a parsed prelude is a str and does not raise (tinycss2 trusted)'))
-    reg.add(Contract(f'{CLI}:resolve_variable', params={'value_str': 'str', 'variables': 'unk', 'visited': 'unk'}, result=['str', 'none'], posts={}, pure=False, raises=(),
-                     assumed='resolve_variable returns a str or None and does not raise on a str and the variables map built by main() (regex + dict lookups; exercised by the C08 twin)'))
+    # resolve_variable is VERIFIED (engine A), no longer assumed: on a str and the map main() builds it returns a str or None and never raises,
+    # for every depth of the recursion (the recursive calls are checked against this same contract: partial correctness, termination not proved)
+    def rv_variables(S, p, ex):
+        def mkval(ex2, q):
+            return ex2.new_dict(q, {'decl': VRef(q.alloc({'__class__': 'tinycss2.ast:Declaration', '__open__': True}), 'tinycss2.ast:Declaration'), 'value': VStr(code=fresh(I, 'varvalue'))})
+        return VRef(p.alloc({'map': {}, 'open': True, 'mkval': mkval}), 'dict')
+    def rv_visited(S, p, ex):
+        return VOpt(fresh(B, 'visited_isnone'), VRef(p.alloc({'open': True}), 'set'))
+    def rv_pre(S, a):
+        ok = isinstance(a.value_str, VStr) and (isinstance(a.visited, (VNone, VOpt)) or (isinstance(a.visited, VRef) and a.visited.cls == 'set')) \
+             and isinstance(a.variables, VRef) and a.variables.cls == 'dict'
+        return S.true if ok else S.false
+    reg.add(Contract(f'{CLI}:resolve_variable', params={'value_str': 'str', 'variables': rv_variables, 'visited': rv_visited}, pre=rv_pre, result=['str', 'none'],
+                     posts={'result_is_str_or_none': lambda S, a, r: S.true if isinstance(r, (VStr, VNone)) else S.false}, pure=False, raises=(),
+                     opts={'match_objects': True}, props={'*': ['C08']}))
     reg.add(Contract(f'{CLI}:update_decl_value', params={'decl': 'unk', 'new_value_str': 'str'},
                      pre=lambda S, a: S.true if isinstance(a.new_value_str, VStr) else S.false,          # tinycss2.parse_component_value_list wants text
                      result='none', posts={}, pure=False, raises=(), effects=('decl_write',),
